@@ -233,6 +233,8 @@ struct Node<C: SimCfg> {
     was_running: bool,
     desync_seen: Option<u64>,
     desync_due_since: Option<u64>,
+    last_wait_frame: Option<i32>,
+    last_quality_report: Option<i32>,
     frame_at_heal: Option<i32>,
 }
 
@@ -447,7 +449,8 @@ impl<'p, C: SimCfg> World<'p, C> {
             }
             w.heap.push(Reverse((ns.tick.start_us, CL_TICK, i as u64, 0, 0)));
             if ns.tick.poll_period_us > 0 {
-                w.heap.push(Reverse((ns.tick.start_us + ns.tick.poll_period_us / 2, CL_POLL, i as u64, 0, 0)));
+                // polling starts with the process, not with the first frame
+                w.heap.push(Reverse((ns.tick.poll_period_us / 2, CL_POLL, i as u64, 0, 0)));
             }
         }
         for (k, inj) in plan.injects.iter().enumerate() {
@@ -937,6 +940,11 @@ impl<'p, C: SimCfg> World<'p, C> {
 
     fn after_poll(&mut self, i: usize) {
         let recv: Vec<(Addr, Option<MMsg>, bool)> = std::mem::take(&mut self.core.borrow_mut().recv_scratch[i]);
+        for (_, m, _) in &recv {
+            if let Some(MMsg { body: MBody::QualityReport { frame_advantage, .. }, .. }) = m {
+                self.nodes[i].last_quality_report = Some(*frame_advantage as i32);
+            }
+        }
         for (from, m, inj) in &recv {
             self.trace.add_all(&[self.now, 8, i as u64, *from as u64, m.as_ref().map(|m| m.kind()).unwrap_or(K_UNKNOWN) as u64, *inj as u64]);
         }
@@ -1212,6 +1220,93 @@ impl<'p, C: SimCfg> World<'p, C> {
                 }
                 self.after_advance_peer(i, advs, c_pre);
             }
+        }
+        self.check_timesync(i);
+    }
+
+    /// C15: frames_ahead(), WaitRecommendation and network_stats() against the known lead and
+    /// the known latency of the run.
+    fn check_timesync(&mut self, i: usize) {
+        let Some(ts) = self.plan.oracle.timesync.clone() else { return };
+        if i > 1 || !self.viol.is_empty() {
+            return;
+        }
+        let other = 1 - i;
+        let cfg = &self.plan.cfg;
+        let period_ms = 1000 / cfg.fps as i64;
+        ggrs::verif::set_now_micros(self.now.max(self.nodes[i].clock_floor));
+        ggrs::verif::set_wall_offset_ms(self.plan.nodes[i].wall_offset_ms as u128);
+        let Sess::Peer(s) = &self.nodes[i].sess else { return };
+        let fa = s.frames_ahead();
+        let g = s.current_frame();
+        let remote_handle = self.nodes[other].locals[0];
+        let stats = s.network_stats(remote_handle);
+        let running = s.current_state() == SessionState::Running;
+        let other_fa = match &self.nodes[other].sess {
+            Sess::Peer(o) => o.frames_ahead(),
+            _ => 0,
+        };
+        // the other node's figures are read under ITS wall clock (each machine has its own)
+        ggrs::verif::set_wall_offset_ms(self.plan.nodes[other].wall_offset_ms as u128);
+        let other_stats = match &self.nodes[other].sess {
+            Sess::Peer(o) => o.network_stats(self.nodes[i].locals[0]).ok(),
+            _ => None,
+        };
+        ggrs::verif::set_wall_offset_ms(self.plan.nodes[i].wall_offset_ms as u128);
+        // the exact lead is a real number of frames; the estimate is an integer within one frame of it
+        let lead_milli = if i == 0 { ts.lead_milli } else { -ts.lead_milli };
+        let (lo, hi) = (lead_milli.div_euclid(1000) as i32 - 1, (lead_milli + 999).div_euclid(1000) as i32 + 1);
+        // wait recommendations reported by this call
+        let new_waits: Vec<u32> = self.nodes[i].events.iter().rev().take_while(|(t, _)| *t == self.now).filter_map(|(_, e)| if let Ev::Wait { skip } = e { Some(*skip) } else { None }).collect();
+        let mut bad: Vec<(&str, String)> = Vec::new();
+        for skip in new_waits {
+            *self.probes.extra.entry("wait_recommendations_checked").or_insert(0) += 1;
+            if fa < 3 || skip as i32 != fa {
+                bad.push(("c15.wait_recommendation", format!("node {i}: WaitRecommendation{{skip_frames {skip}}} raised while frames_ahead() is {fa}")));
+            }
+            if let Some(prev) = self.nodes[i].last_wait_frame {
+                if g - prev < 60 {
+                    bad.push(("c15.wait_recommendation", format!("node {i}: WaitRecommendations at frames {prev} and {g}, less than 60 frames apart")));
+                }
+            }
+            self.nodes[i].last_wait_frame = Some(g);
+        }
+        // before enough data exists: an error, not numbers
+        if self.now < 1_000_000 && stats.is_ok() {
+            bad.push(("c15.stats_too_early", format!("node {i}: network_stats() returned numbers {} ms after the session was created", self.now / 1000)));
+        }
+        if self.now >= ts.measure_from_us && running {
+            *self.probes.extra.entry("timesync_ticks_measured").or_insert(0) += 1;
+            if fa < lo || fa > hi {
+                bad.push(("c15.frames_ahead", format!("node {i} runs {:.2} frames ahead (latency {} ms, {} fps) but frames_ahead() is {fa}", lead_milli as f64 / 1000.0, ts.latency_us / 1000, cfg.fps)));
+            }
+            if (fa + other_fa).abs() > 1 {
+                bad.push(("c15.frames_ahead_sum", format!("frames_ahead() of the two peers are {fa} and {other_fa}: the sum is more than one frame from zero")));
+            }
+            match &stats {
+                Err(e) => bad.push(("c15.stats_missing", format!("node {i}: network_stats() still returns {e:?} {} ms into the session", self.now / 1000))),
+                Ok(st) => {
+                    let rtt_ms = (2 * ts.latency_us / 1000) as i64;
+                    if (st.ping as i64 - rtt_ms).abs() > period_ms + 1 {
+                        bad.push(("c15.ping", format!("node {i}: network_stats().ping is {} ms, the link's round trip is {rtt_ms} ms (one tick = {period_ms} ms)", st.ping)));
+                    }
+                    if let Some(last) = self.nodes[i].last_quality_report {
+                        if st.remote_frames_behind != last {
+                            bad.push(("c15.frames_behind", format!("node {i}: remote_frames_behind is {} but the last quality report received says {last}", st.remote_frames_behind)));
+                        }
+                    }
+                    if let Some(os) = other_stats {
+                        // sanity only (the other side's figure moves with every tick and every new ping sample;
+                        // the exact identity is the comparison with the last report above)
+                        if (st.remote_frames_behind - os.local_frames_behind).abs() > 3 {
+                            bad.push(("c15.frames_behind", format!("node {i} reports remote_frames_behind {} while node {other} reports local_frames_behind {}", st.remote_frames_behind, os.local_frames_behind)));
+                        }
+                    }
+                }
+            }
+        }
+        for (c, t) in bad {
+            self.violate(c, i, g, t);
         }
     }
 
@@ -1746,6 +1841,8 @@ impl<C: SimCfg> Node<C> {
             was_running: false,
             desync_seen: None,
             desync_due_since: None,
+            last_wait_frame: None,
+            last_quality_report: None,
             frame_at_heal: None,
         }
     }
